@@ -46,10 +46,10 @@ def run(ctx):
         n(src, res)
     from component import run_corr
     run_corr(ctx, 'corr_patterns', 'every emitted j classifies as a proved idiom (Patterns.classify)')
-    diff_sweep(ctx, 'directed time-travel corpus', genhist.directed_units(ws), extra=both)
+    diff_sweep(ctx, 'directed time-travel corpus', genhist.directed_units(ws), extra=both, monitor=True)
     diff_sweep(ctx, 'directed time-travel corpus, --unchecked', genhist.directed_units(ws[:2], unchecked=True), extra=h)
-    diff_sweep(ctx, 'histories of try blocks', history_units(rng, 220 if q else 2500, ws, ctx.seed + 200), extra=both)
+    diff_sweep(ctx, 'histories of try blocks', history_units(rng, 220 if q else 2500, ws, ctx.seed + 200), extra=both, monitor=True)
     units = program_units(rng, 120 if q else 1500, ALL + ['tt'], ws, cfgs_per=3, seed_base=ctx.seed + 201)
-    diff_sweep(ctx, 'random programs with time travel', units, extra=h)
+    diff_sweep(ctx, 'random programs with time travel', units, extra=h, monitor=True)
     diff_sweep(ctx, 'histories, --unchecked', history_units(rng, 40 if q else 400, ws, ctx.seed + 202, per=2, unchecked=True), extra=None)
     ctx.cov['rule'] = sweeps.RULE
